@@ -728,6 +728,35 @@ pub fn c19(case: &Case, seed: u64) -> Verdict {
         Ok(p) if p != base => return Fails(format!("building the same registration sequence twice gave different plans: {} vs {}", show(&base), show(&p))),
         _ => {}
     }
+    // (1a) ... and prints the same plan text (ids, hence the placeholders of unnamed systems, are positions in the registration sequence)
+    if let (Ok(a), Ok(b)) = (build(case), build(case)) {
+        if let (Ok(ta), Ok(tb)) = (&a.debug_text, &b.debug_text) {
+            if ta != tb {
+                return Fails(format!("building the same registration sequence twice printed different plans: `{}` vs `{}`", ta, tb));
+            }
+        }
+    }
+    // (1c) the order in which a system lists its dependencies is not part of the dependency structure
+    for rot in [0usize, 1] {
+        let c1c = Case {
+            ops: map_ops(
+                &case.ops,
+                &mut |s| {
+                    if rot == 0 { s.deps.reverse() } else if s.deps.len() > 1 { s.deps.rotate_left(1) }
+                },
+                &mut |b| {
+                    if rot == 0 { b.deps.reverse() } else if b.deps.len() > 1 { b.deps.rotate_left(1) }
+                },
+            ),
+        };
+        if c1c == *case {
+            continue;
+        }
+        match plans(&c1c) {
+            Ok(p) if p != base => return Fails(format!("listing the same dependencies in another order changed the plan: {} vs {}", show(&base), show(&p))),
+            _ => {}
+        }
+    }
     // (1b) same sequence built where rayon reports another number of workers (on a worker of a small pool, as in a process
     // started with another RAYON_NUM_THREADS): "in every process and feature configuration"
     {
